@@ -112,7 +112,8 @@ type Sim struct {
 
 	nodes []*Node
 
-	Probes map[string]int
+	Probes    map[string]int
+	mapVisits map[uint32]uint64 // per site: how often a map iteration started there (MapIter)
 }
 
 var cur *Sim
@@ -372,6 +373,10 @@ func (s *Sim) RecordedSchedule() []int {
 }
 
 func (s *Sim) Steps() int             { return s.steps }
+
+// SchedTrace returns the textual trace of scheduling decisions (Config.TraceSched).
+func (s *Sim) SchedTrace() []string { return s.trace }
+
 func (s *Sim) Switches() int          { return s.switches }
 func (s *Sim) InterleavingHash() uint64 { return s.hash }
 func (s *Sim) Trace() []string        { return s.trace }
